@@ -115,7 +115,7 @@ def handle (line : String) : Except String Json := do
   let C := SqlglotModel.Generated.C06.complement
   let I := SqlglotModel.Generated.C06.inverseCmp
   match op with
-  | "rewrite_between" => pure (eJ (rewriteBetween (← getB "pnot") (← getE "e")))
+  | "rewrite_between" => pure (eJ (rewriteBetween (pkOfString (← getS "p")) (← getE "e")))
   | "simplify_not" =>
     pure (eJ (simplifyNot C ⟨← getB "sdn", false⟩ (pkOfString (← getS "p")) (← getB "ib") (← getE "e")))
   | "conn_pair" =>
